@@ -125,6 +125,14 @@ theorem exclude_missing_list_error (p : Play) (h : exclList p = .missing) : excl
 theorem exclList_missing_of_no_vars (p : Play) (h : lookupStr sVars p = none) : exclList p = .missing := by
   simp [exclList, h]
 
+/-- a `vars` that is not a mapping (null, string, sequence, …) counts as a missing list (fix 5a7421c) -/
+theorem exclList_missing_of_vars_not_map (p : Play) (h : ∀ vs, lookupStr sVars p ≠ some (.map vs)) :
+    exclList p = .missing := by
+  unfold exclList
+  split
+  · rename_i vs hv; exact absurd hv (h vs)
+  · rfl
+
 theorem exclList_missing_of_no_key (p : Play) (vs : List (Scalar × PVal)) (h : lookupStr sVars p = some (.map vs))
     (h2 : lookupStr sExclude vs = none) : exclList p = .missing := by
   simp [exclList, h, h2]
@@ -141,12 +149,18 @@ theorem exclude_invalid_request_error (p : Play) (e : Str) (hl : exclList p = .t
     rw [hl] at h
     rw [exclLoop_error _ p x h]
 
-/-- with a usable (string) exclusion list, exclusion never fails with anything but a verification error -/
-theorem exclude_error_is_verr (p : Play) (e : Str) (x : Err) (hl : exclList p = .text e) (h : exclude p = .error x) :
-    x = .verr := by
+/-- an exclusion list that is present but not a string (null, integer, boolean, sequence, mapping):
+verification error (fix 5a7421c) -/
+theorem exclude_nonstring_list_error (p : Play) (h : exclList p = .nonstring) : exclude p = .error .verr := by
+  simp [exclude, h]
+
+/-- FULL STRENGTH: for every play, exclusion fails with nothing but a verification error -/
+theorem exclude_fails_only_with_verr (p : Play) (x : Err) (h : exclude p = .error x) : x = .verr := by
   unfold exclude at h
-  rw [hl] at h
-  exact exclLoop_error _ p x h
+  split at h
+  · injection h with h; exact h.symm
+  · injection h with h; exact h.symm
+  · exact exclLoop_error _ p x h
 
 /-- missing signature (no `vars` mapping, no `insights_signature`, or a null one): verification error -/
 theorem missing_signature_error (p : Play)
@@ -162,54 +176,51 @@ theorem missing_signature_error (p : Play)
   · rw [hv]
     rcases hs with hs | hs <;> simp [hs]
 
-/-- FULL STATEMENT (false of the current code): every failure of `verify_play`'s checks is a
-verification error -/
+/-- the statement that was false before fix 5a7421c -/
 def VerifyPlayFailsOnlyWithVerificationError : Prop :=
   ∀ p : Play, ∀ x, verifyPlay p = .error x → x = .verr
 
-/-- what holds: the only other failure is an exclusion list that is present but not a string -/
-theorem verifyPlay_error_partial (p : Play) (h : verifyPlay p = .error .crash) :
-    ∃ vs v, lookupStr sVars p = some (.map vs) ∧ lookupStr sExclude vs = some v ∧ ∀ e, v ≠ .sc (.str e) := by
+/-- FULL STRENGTH: every failure of `verify_play`'s presence checks and exclusion is a verification
+error, for all plays -/
+theorem verifyPlay_fails_only_with_verr : VerifyPlayFailsOnlyWithVerificationError := by
+  intro p x h
   unfold verifyPlay at h
   split at h
-  · rename_i vs hv
-    split at h
-    · cases h
-    · cases h
+  · split at h
+    · injection h with h; exact h.symm
+    · injection h with h; exact h.symm
     · split at h
       · cases h
-      · rename_i x hx
+      · rename_i y hy
         injection h with h; subst h
-        unfold exclude at hx
-        split at hx
-        · cases hx
-        · rename_i hl
-          unfold exclList at hl
-          rw [hv] at hl
-          simp only at hl
-          split at hl
-          · cases hl
-          · cases hl
-          · rename_i v hne hlk
-            exact ⟨vs, v, hv, hlk, fun e he => hne e he⟩
-        · rename_i e hl
-          have := exclLoop_error _ p _ hx
-          cases this
-  · cases h
+        exact exclude_fails_only_with_verr p y hy
+  · injection h with h; exact h.symm
 
 def isCrash {α : Type} : Except Err α → Bool
   | .error .crash => true
   | _ => false
 
-/-- the witness of known finding `nonstring-exclusion-list` (replayed against the implementation) -/
+def isVerr {α : Type} : Except Err α → Bool
+  | .error .verr => true
+  | _ => false
+
+/-- the regression witness of the repaired defect (corpus/C18/nonstring_exclusion_list.json) -/
 def nonstringWitness : Play :=
   [(.str ['n', 'a', 'm', 'e'], .sc (.str ['w'])), (.str sHosts, .sc (.str ['a', 'l', 'l'])),
    (.str sVars, .map [(.str sExclude, .sc .none), (.str sSignature, .sc (.str ['U', 'E', 'x', 'B']))])]
 
-theorem verifyPlay_error_witness : ¬ VerifyPlayFailsOnlyWithVerificationError := by
+example : isVerr (exclude nonstringWitness) = true := by decide
+example : isVerr (verifyPlay nonstringWitness) = true := by decide
+
+/-- the same statement over the model of the code BEFORE the fix (`excludeOld`) … -/
+def OldExcludeFailsOnlyWithVerificationError : Prop :=
+  ∀ p : Play, ∀ x, excludeOld p = .error x → x = .verr
+
+/-- … was false: the witness let a non-verification exception escape -/
+theorem excludeOld_witness : ¬ OldExcludeFailsOnlyWithVerificationError := by
   intro h
-  have hc : isCrash (verifyPlay nonstringWitness) = true := by decide
-  cases hv : verifyPlay nonstringWitness with
+  have hc : isCrash (excludeOld nonstringWitness) = true := by decide
+  cases hv : excludeOld nonstringWitness with
   | ok r => rw [hv] at hc; cases hc
   | error x =>
     have := h nonstringWitness x hv
@@ -300,14 +311,16 @@ theorem unsigned_rejected (rplay p : Play)
   obtain ⟨_, _, text, sig, _, _, hv, _⟩ := verify_accepts H sigDecodes sigValid hashOf rplay p h
   rw [missing_signature_error p hs] at hv; cases hv
 
-/-- a play with a missing or invalid exclusion request is never accepted -/
+/-- a play with a missing or non-string exclusion list, or an invalid request, is never accepted -/
 theorem bad_exclusion_rejected (rplay p : Play)
-    (hb : exclList p = .missing ∨ ∃ e, exclList p = .text e ∧ ∃ el ∈ splitOn ',' e, ¬ ValidPath (pathOf el)) :
+    (hb : exclList p = .missing ∨ exclList p = .nonstring ∨
+      ∃ e, exclList p = .text e ∧ ∃ el ∈ splitOn ',' e, ¬ ValidPath (pathOf el)) :
     verify H sigDecodes sigValid hashOf rplay p ≠ .ok () := by
   intro h
   obtain ⟨_, _, _, _, cleaned, _, _, hcl, _⟩ := verify_accepts H sigDecodes sigValid hashOf rplay p h
-  rcases hb with hm | ⟨e, hl, hbad⟩
+  rcases hb with hm | hn | ⟨e, hl, hbad⟩
   · rw [exclude_missing_list_error p hm] at hcl; cases hcl
+  · rw [exclude_nonstring_list_error p hn] at hcl; cases hcl
   · rw [exclude_invalid_request_error p e hl hbad] at hcl; cases hcl
 
 /-- THE PROPERTY, end to end: if two plays are both accepted with signatures that GPG ties to one
@@ -371,6 +384,5 @@ example : ¬ ValidPath (pathOf ['/', 'n', 'a', 'm', 'e']) := by
     rw [e] at h1; injection h1 with h1; subst h1; revert h2; decide
   · have e : pathOf ['/', 'n', 'a', 'm', 'e'] = [['n', 'a', 'm', 'e']] := by decide
     rw [e] at h1; simp at h1
-example : isCrash (exclude nonstringWitness) = true := by decide
 
 end IV.Playbook.C18
